@@ -26,11 +26,14 @@ Core-only, executable.
 namespace NetSysPR
 open NetSys (Params Op Write toWire sndOp accepts)
 
+deriving instance DecidableEq for Sender.Chunk
+deriving instance DecidableEq for Sender.Fwd
+
 /-- what travels: a DATA / I-DATA chunk or a FORWARD-TSN / I-FORWARD-TSN chunk, as the sender built it -/
 inductive Item where
   | data (c : Sender.Chunk)
   | fwd (f : Sender.Fwd)
-  deriving Inhabited, BEq, Repr
+  deriving Inhabited, DecidableEq, Repr
 
 structure St where
   snd : Sender.St
